@@ -64,6 +64,8 @@ struct Ctl {
     consumed: Vec<[u64; 5]>,
     // number of password checks that went through the hook
     pw_checks: u64,
+    // the current poll ended at the hook's scheduler-visible yield
+    yielded: bool,
 }
 
 thread_local! {
@@ -107,6 +109,7 @@ pub(crate) fn activate(slots: usize) -> usize {
             info: vec![None; slots],
             consumed: vec![[0; 5]; slots],
             pw_checks: 0,
+            yielded: false,
         };
         id
     });
@@ -164,6 +167,11 @@ pub(crate) fn consumed(slot: usize) -> [u64; 5] {
 
 pub(crate) fn pw_checks() -> u64 {
     with_ctl(|c| c.pw_checks)
+}
+
+/// True once if a poll since the last call stopped at the password hook's yield.
+pub(crate) fn take_yielded() -> bool {
+    with_ctl(|c| std::mem::replace(&mut c.yielded, false))
 }
 
 // Non-destructive peek at the KILL notice: a delivered value is moved into a
@@ -337,7 +345,10 @@ pub(crate) async fn password_hook(password: &str, hash_str: &str) -> Option<bool
     if !is_active() {
         return None;
     }
-    with_ctl(|c| c.pw_checks += 1);
+    with_ctl(|c| {
+        c.pw_checks += 1;
+        c.yielded = true;
+    });
     tokio::task::yield_now().await;
     let key = (password.to_string(), hash_str.to_string());
     if let Some(r) = PW_MEMO.lock().unwrap().get(&key) {
